@@ -282,6 +282,7 @@ type DerItem struct {
 	InPrim  bool   `json:"ip,omitempty"`   // explicit wrapper flagged primitive
 	LongLen bool   `json:"ll,omitempty"`   // non-minimal length encoding of the inner string
 	Trail   string `json:"tr,omitempty"`   // extra bytes appended inside the explicit wrapper
+	NoValue bool   `json:"nv,omitempty"`   // the otherName holds the type OID only, the value element is missing
 }
 
 type DerMut struct {
@@ -356,6 +357,12 @@ func (it DerItem) classify() string {
 	if it.Kind != "on" {
 		return "none"
 	}
+	if it.NoValue {
+		if it.OID == "receptor" && it.Class == 2 && !it.Prim {
+			return "undecodable" // marked as a receptor name by a well-formed outer element, but there is no value to read
+		}
+		return "lenient"
+	}
 	if it.OID != "receptor" {
 		if it.Class == 2 && !it.Prim {
 			return "none"
@@ -403,6 +410,9 @@ func (it DerItem) encode() []byte {
 		oid = oidBytes["other"]
 	}
 	content := append(derTLV(0, false, 6, oid, false), wrapped...)
+	if it.NoValue {
+		content = derTLV(0, false, 6, oid, false)
+	}
 	return derTLV(it.Class, !it.Prim, 0, content, false)
 }
 
